@@ -13,7 +13,7 @@ from typing import Dict, List, Optional
 
 from ..algebra import Rat, to_rat
 from ..index import AnalysisError, call_name, norm, norm1
-from .common import calls, enclosing, fctx, in_body, is_name, method_calls, stmts
+from .common import Frag, calls, const_of, enclosing, fctx, in_body, is_name, kwarg, method_calls, pmatch, stmts
 
 LEVEL = "other"
 EXPLANATION = (
@@ -28,6 +28,12 @@ KB = "wannierberri/result/kbandresult.py"
 TC = "wannierberri/calculators/tabulate.py"
 
 
+def _order_is_C(call: ast.Call, pos: Optional[int] = None):
+    """`order` argument of a numpy reshape/flatten call: True if it denotes C order (absent = numpy default 'C')."""
+    v = const_of(kwarg(call, "order", pos), "C")
+    return v in ("C", "c"), v
+
+
 def run(ctx) -> None:
     idx = ctx.index
 
@@ -35,92 +41,223 @@ def run(ctx) -> None:
     r1 = ctx.rule("R30.1", "one linearisation (C order) across to_grid / get_data / fermiSurfer", min_instances=4)
     tg = idx.function(TAB, "TABresult.to_grid")
     cfg, du, pm = fctx(tg)
-    st = [s for s in stmts(tg.node) if isinstance(s, ast.Assign) and is_name(s.targets[0], "ind_grid")]
-    if len(st) != 1:
-        raise AnalysisError("to_grid: ind_grid assignment not found")
-    r1.instance(f"{tg.short}: {norm1(st[0], 100)}")
+    F = Frag(tg)
+    gridp, orderp = (tg.params + [None, None, None])[1:3]
+    r1.expect(gridp is not None and orderp is not None, "to_grid(self, grid, order)", tg, tg.node, "to_grid no longer has the parameters (grid, order)")
+    # locate the slot store  k_map[ind_grid[ik]].append(ik)  → names of the slot list and the index array
+    app0 = pmatch(tg.node, "KM[IDX].append(IK)", {"KM", "IDX", "IK"})
+    if len(app0) != 1:
+        r1.expect(False, "slot store located", tg, tg.node, "to_grid: the store `slots[…].append(ik)` was not found (exactly once)")
+        return
+    app = F.find("k_map[ind_grid[ik]].append(ik)")
+    if len(app) != 1:
+        r1.violation(tg, app0[0][0], f"`{norm1(app0[0][0])}`: k-point {app0[0][1]['IK']} is appended to slot `{app0[0][1]['IDX']}`, which is not the slot "
+                     f"index computed for that same k-point (index[{app0[0][1]['IK']}])")
+        return
+    ind_name = app[0][1]["ind_grid"]
+    d = du.single_def(ind_name, du.node_of_expr(app[0][0])) if ind_name.isidentifier() else None
+    if d is None or d.kind != "assign":
+        r1.expect(False, "slot index has one definition", tg, app[0][0], f"to_grid: `{ind_name}` does not have a single plain definition")
+        return
+    r1.instance(f"{tg.short}: {norm1(d.stmt, 100)}")
+    kint_names = set()
 
     def env(x):
         if isinstance(x, ast.Subscript):
-            t = norm(x).replace(" ", "")
-            for a in range(3):
-                if t == f"kpoints_int[:,{a}]":
-                    return Rat.sym(f"k{a}")
-                if t == f"grid[{a}]":
-                    return Rat.sym(f"g{a}")
+            sl = x.slice
+            if isinstance(x.value, ast.Name) and isinstance(sl, ast.Tuple) and len(sl.elts) == 2 and isinstance(sl.elts[0], ast.Slice) \
+                    and isinstance(sl.elts[1], ast.Constant) and sl.elts[1].value in (0, 1, 2) and x.value.id != gridp:
+                kint_names.add(x.value.id)
+                return Rat.sym(f"k{sl.elts[1].value}")
+            if isinstance(x.value, ast.Name) and x.value.id == gridp and isinstance(sl, ast.Constant) and sl.value in (0, 1, 2):
+                return Rat.sym(f"g{sl.value}")
+        if isinstance(x, ast.Name):
+            dd = du.single_def(x.id, d.node)
+            if dd is not None and dd.kind == "assign" and not any(isinstance(n, ast.Call) for n in ast.walk(dd.value)):
+                return to_rat(dd.value, env)
         return None
-    got = to_rat(st[0].value, env)
+    got = to_rat(d.value, env)
     want = Rat.sym("k0") * Rat.sym("g1") * Rat.sym("g2") + Rat.sym("k1") * Rat.sym("g2") + Rat.sym("k2")
-    r1.check(got.equals(want), "slot index = k0·g1·g2 + k1·g2 + k2 (C order)", tg, st[0],
-             f"the slot index `{norm1(st[0].value)}` is not the C-order linearisation k0·g1·g2 + k1·g2 + k2: values are attached to other "
+    r1.check(got.equals(want) and len(kint_names) == 1, "slot index = k0·g1·g2 + k1·g2 + k2 (C order)", tg, d.stmt,
+             f"the slot index `{norm1(d.value)}` is not the C-order linearisation k0·g1·g2 + k1·g2 + k2: values are attached to other "
              f"grid points than the k-points stored next to them")
-    t = norm(tg.node).replace(" ", "")
-    r1.check("np.meshgrid(grid1[0],grid1[1],grid1[2],indexing='ij')).reshape((3,-1),order=order).T" in t,
-             "new k-points: meshgrid(indexing='ij') flattened with the requested order", tg, tg.node,
-             "the grid k-points are no longer generated with meshgrid(indexing='ij').reshape((3,-1), order=order)", stmt="k_new")
-    r1.check("kpoints_int=kpoints_int%grid[None,:]" in t and "np.rint(self.kpoints*grid[None,:]).astype(int)" in t,
-             "integer grid coordinates are folded into [0, g)", tg, tg.node, "integer grid coordinates are not folded modulo the grid", stmt="fold")
+    kint = next(iter(kint_names)) if len(kint_names) == 1 else None
+    if kint is not None:
+        # integer coordinates: rint(k·grid) folded into [0, g) before they are linearised
+        defs = [x for x in du.reaching(kint, d.node)]
+        fold = [x for x in defs if x.value is not None and (pmatch(x.value, f"KI % {gridp}[None, :]", {"KI"}) or pmatch(x.value, f"KI % {gridp}", {"KI"})
+                                                           or pmatch(x.value, f"np.mod(KI, {gridp}[None, :])", {"KI"}))
+                and any(pmatch(x.value, pt, {"KI"})[0][0] is x.value for pt in (f"KI % {gridp}[None, :]", f"KI % {gridp}", f"np.mod(KI, {gridp}[None, :])")
+                        if pmatch(x.value, pt, {"KI"}))]
+        r1.check(len(defs) == 1 and len(fold) == 1, "integer grid coordinates are folded into [0, g) before linearisation", tg, d.stmt,
+                 f"`{kint}` is not reduced modulo the grid before the slot index is computed: k-points given outside [0,1) index other slots "
+                 f"(or past the end)")
+        sl, _, _ = du.backward_slice(ast.Name(id=kint, ctx=ast.Load()), d.node)
+        r1.check(any(pmatch(e, f"np.rint(self.kpoints * {gridp}[None, :]).astype(int)") or pmatch(e, f"np.rint(self.kpoints * {gridp}).astype(int)") for e in sl),
+                 "integer coordinates = rint(k · grid)", tg, d.stmt, "the integer grid coordinates are no longer rint(self.kpoints · grid)")
+    # the new k-points
+    mg = [c for c in calls(tg.node, "meshgrid")]
+    if len(mg) != 1:
+        r1.expect(False, "meshgrid located", tg, tg.node, "to_grid: the np.meshgrid call that builds the grid k-points was not found")
+    else:
+        m = mg[0]
+        ax = [norm(a_) for a_ in m.args]
+        gl = {a_.value.id for a_ in m.args if isinstance(a_, ast.Subscript) and isinstance(a_.value, ast.Name)}
+        ax_ok = len(m.args) == 3 and len(gl) == 1 and ax == [f"{next(iter(gl))}[{i}]" for i in range(3)]
+        r1.check(ax_ok and const_of(kwarg(m, "indexing"), "xy") == "ij", "grid k-points: meshgrid of axes 0,1,2 with indexing='ij'", tg, m,
+                 f"`{norm1(m)}`: the grid k-points are not generated as meshgrid(axis0, axis1, axis2, indexing='ij') (numpy's default 'xy' swaps "
+                 f"the first two axes): k-points and values are paired differently")
+        rs = pm.get(pm.get(pm.get(m)))   # np.array(meshgrid).reshape
+        outer = [c for c in method_calls(tg.node, "reshape") if any(n is m for n in ast.walk(c.func))]
+        if len(outer) != 1:
+            r1.expect(False, "reshape of the meshgrid located", tg, m, "to_grid: reshape of the meshgrid not found")
+        else:
+            rc = outer[0]
+            ov = kwarg(rc, "order")
+            tr = pm.get(rc)
+            r1.check(isinstance(ov, ast.Name) and ov.id == orderp and const_of(rc.args[0] if rc.args else None) == (3, -1)
+                     and isinstance(tr, ast.Attribute) and tr.attr == "T",
+                     "grid k-points flattened as (3, -1) with the requested order, one row per k-point", tg, rc,
+                     f"`{norm1(rc, 90)}`: the grid k-points are not flattened with reshape((3, -1), order=<requested order>).T")
+        if gl:
+            gd_ = du.single_def(next(iter(gl)), du.node_of_expr(m))
+            r1.check(gd_ is not None and bool(pmatch(gd_.value, f"[np.linspace(0.0, 1.0, G_, False) for G_ in {gridp}]", {"G_"})
+                                               or pmatch(gd_.value, f"[np.linspace(0.0, 1.0, G_, endpoint=False) for G_ in {gridp}]", {"G_"})
+                                               or pmatch(gd_.value, f"[np.arange(G_) / G_ for G_ in {gridp}]", {"G_"})),
+                     "axis i holds the points j/g_i, j = 0..g_i−1", tg, gd_.stmt if gd_ else m,
+                     "the grid axes are no longer the g_i equidistant points j/g_i of [0, 1)")
     sg = idx.function(TAB, "TABresult.self_to_grid")
     r1.instance(sg.short)
-    r1.check("self.to_grid(self.find_grid, order='C')" in norm(sg.node), "self_to_grid requests C order", sg, sg.node,
-             "self_to_grid no longer requests order='C' (the index arithmetic is C order)", stmt="order='C'")
+    tc = [c for c in method_calls(sg.node, "to_grid") if norm(c.func.value) == "self"]
+    if len(tc) != 1:
+        r1.expect(False, "self.to_grid call located", sg, sg.node, "self_to_grid no longer calls self.to_grid once")
+    else:
+        default = None
+        pa = tg.node.args
+        if orderp in [x.arg for x in pa.args]:
+            i_ = [x.arg for x in pa.args].index(orderp) - (len(pa.args) - len(pa.defaults))
+            default = const_of(pa.defaults[i_]) if i_ >= 0 else None
+        ov = const_of(kwarg(tc[0], orderp, 1), default)
+        r1.check(ov == "C", "self_to_grid requests C order", sg, tc[0],
+                 f"self_to_grid requests order={ov!r}: the slot index is the C-order linearisation, so the k-points are not those of the values")
     gd = idx.function(TAB, "TABresult.__get_data_grid")
     r1.instance(gd.short)
-    tgd = norm(gd.node).replace(" ", "")
-    r1.check(".reshape(shape)" in tgd and "order=" not in tgd and "shape=tuple(self.grid)" in tgd, "get_data reshapes the slots in default (C) order to the grid shape", gd, gd.node,
-             "get_data reshapes the slot axis with a different order than the slots were filled in", stmt="reshape(shape)")
+    rsh = method_calls(gd.node, "reshape")
+    r1.expect(len(rsh) >= 2, "get_data reshapes located", gd, gd.node, "__get_data_grid: reshape calls not found")
+    gcfg, gdu, gpm = fctx(gd)
+    for rc in rsh:
+        okc, v = _order_is_C(rc, 1)
+        r1.check(okc, "get_data reshapes the slot axis in C order", gd, rc,
+                 f"`{norm1(rc, 80)}` reshapes the slot axis with order={v!r} although the slots were filled in C order")
+        a0 = rc.args[0] if rc.args else None
+        first = a0.left if isinstance(a0, ast.BinOp) and isinstance(a0.op, ast.Add) else a0
+        shp_defs = gdu.reaching(first.id, gdu.node_of_expr(rc)) if isinstance(first, ast.Name) else []
+        okshape = bool(shp_defs) and all(x.value is not None and (norm(x.value) == "tuple(self.grid)" or norm(x.value).startswith("tuple(self.grid) + "))
+                                         for x in shp_defs)
+        r1.check(okshape, "… to the grid shape (g0, g1, g2[, bands, components])", gd, rc,
+                 f"`{norm1(rc, 80)}`: the leading axes of the reshaped data are not tuple(self.grid)")
     fs = idx.function(TAB, "fermiSurfer")
     r1.instance(fs.short)
-    tfs = norm(fs.node).replace(" ", "")
-    r1.check("Enk[:,:,:,ib].flatten(order='C')" in tfs and "data[:,:,:,ib].flatten(order='C')" in tfs, "FermiSurfer output is flattened in C order", fs, fs.node,
-             "fermiSurfer flattens the grid in a different order than it was built", stmt="flatten C")
+    fl = [c for c in ast.walk(fs.node) if isinstance(c, ast.Call) and isinstance(c.func, ast.Attribute) and c.func.attr in ("flatten", "ravel", "reshape")
+          and isinstance(c.func.value, ast.Subscript)]
+    r1.expect(len(fl) >= 2, "FermiSurfer flatten calls located", fs, fs.node, "fermiSurfer: the flatten calls on the grid arrays were not found")
+    for c in fl:
+        okc, v = _order_is_C(c, 0 if c.func.attr != "reshape" else 1)
+        r1.check(okc, "FermiSurfer output is flattened in C order", fs, c, f"`{norm1(c, 80)}` flattens the grid with order={v!r}; the FermiSurfer format and "
+                 f"the grid built by to_grid are C-ordered")
     tf = idx.function(TAB, "TABresult.fermiSurfer")
-    r1.check("if self.gridorder != 'C':" in norm(tf.node), "FermiSurfer export refuses non-C grids", tf, tf.node, "the gridorder guard of fermiSurfer was removed", stmt="gridorder guard")
+    guard = [s_ for s_ in stmts(tf.node) if isinstance(s_, ast.If) and "gridorder" in norm(s_.test)]
+    r1.check(len(guard) == 1 and norm(guard[0].test) in ("self.gridorder != 'C'", "'C' != self.gridorder", "not self.gridorder == 'C'")
+             and isinstance(guard[0].body[-1], ast.Raise), "FermiSurfer export refuses non-C grids", tf, guard[0] if guard else tf.node,
+             "the `gridorder != 'C'` guard of TABresult.fermiSurfer no longer raises", stmt="gridorder guard")
 
     # ---------------------------------------------------------------- R30.2
     r2 = ctx.rule("R30.2", "slot map and per-slot averaging", min_instances=2)
-    r2.instance(f"{tg.short}: k_map")
-    r2.check("k_map=[[]foriinrange(np.prod(grid))]" in t, "one (independent) list per grid slot", tg, tg.node,
-             "k_map is not one fresh list per grid slot (e.g. `[[]] * n` shares one list)", stmt="k_map init")
-    app = [c for c in method_calls(tg.node, "append") if "k_map" in norm(c.func.value)]
-    ok = len(app) == 1 and norm(app[0].func.value).replace(" ", "") == "k_map[ind_grid[ik]]" and norm(app[0].args[0]) == "ik"
-    g = enclosing(pm, app[0], ast.If) if app else None
-    r2.check(ok and g is not None and norm(g.test).replace(" ", "") == "on_grid[ik]", "k-point ik goes to the slot of its own index, only if it lies on the grid", tg,
-             app[0] if app else tg.node, "a k-point is appended to a slot other than its own / off-grid points are not skipped")
-    lp = enclosing(pm, app[0], ast.For) if app else None
-    r2.check(lp is not None and norm(lp.iter).replace(" ", "") == "range(len(self.kpoints))", "every stored k-point is considered", tg, lp or tg.node,
-             "not every stored k-point is mapped to the grid")
-    r2.check("{r:self.results[r].to_grid(k_map)forrinself.results}" in t, "every quantity is gathered with the same slot map", tg, tg.node,
+    kmap = app[0][1]["k_map"]
+    r2.instance(f"{tg.short}: {kmap}")
+    kd = du.single_def(kmap, du.node_of_expr(app[0][0])) if kmap.isidentifier() else None
+    fresh = kd is not None and kd.value is not None and (
+        pmatch(kd.value, f"[[] for I in range(np.prod({gridp}))]", {"I"}) or pmatch(kd.value, f"[list() for I in range(np.prod({gridp}))]", {"I"})
+        or pmatch(kd.value, f"[[] for I in range(int(np.prod({gridp})))]", {"I"}))
+    r2.check(bool(fresh), "one (independent) list per grid slot", tg, kd.stmt if kd else tg.node,
+             f"`{norm1(kd.stmt) if kd else kmap}`: the slot map is not one fresh list per grid slot (e.g. `[[]] * n` shares one list between all slots)")
+    appn = app[0][0]
+    g = enclosing(pm, appn, ast.If)
+    lp = enclosing(pm, appn, ast.For)
+    ikv = app[0][1]["ik"]
+    on = None
+    if g is not None and isinstance(g.test, ast.Subscript) and norm(g.test.slice) == ikv and isinstance(g.test.value, ast.Name) and in_body(g.body, appn):
+        on = gdef = du.single_def(g.test.value.id, cfg.node(g))
+    r2.check(on is not None and on.value is not None and "< 1e-" in norm(on.value) and "self.kpoints" in norm(on.value),
+             "k-point ik goes to the slot of its own index, only if it lies on the grid", tg, appn,
+             "a k-point is appended without the on-grid test of that same k-point: off-grid points are averaged into grid slots")
+    r2.check(lp is not None and isinstance(lp.target, ast.Name) and lp.target.id == ikv
+             and norm(lp.iter).replace(" ", "") in ("range(len(self.kpoints))", "range(self.kpoints.shape[0])"),
+             "every stored k-point is considered", tg, lp or tg.node, "not every stored k-point is mapped to the grid")
+    res = F.find(f"{{r: self.results[r].to_grid({kmap}) for r in self.results}}") or F.find(f"{{r: v.to_grid({kmap}) for r, v in self.results.items()}}")
+    r2.check(bool(res), "every quantity is gathered with the same slot map", tg, tg.node,
              "not every tabulated quantity is gathered with the slot map", stmt="results to_grid")
     kg = idx.function(KB, "K__Result.to_grid")
     r2.instance(kg.short)
-    tk = norm(kg.node).replace(" ", "")
-    r2.check("np.array([sum((dataall[ik]forikinkm))/len(km)forkmink_map])" in tk, "slot value = mean over the slot's own members", kg, kg.node,
-             "K__Result.to_grid no longer averages each slot over exactly its members", stmt="slot mean")
+    km = kg.params[1] if len(kg.params) > 1 else "k_map"
+    K = Frag(kg)
+    mean = K.find(f"[sum(dataall[ik] for ik in km) / len(km) for km in {km}]") or K.find(f"[sum([dataall[ik] for ik in km]) / len(km) for km in {km}]") \
+        or K.find(f"[np.mean([dataall[ik] for ik in km], axis=0) for km in {km}]") or K.find(f"[dataall[km].mean(axis=0) for km in {km}]")
+    anycomp = [n for n in ast.walk(kg.node) if isinstance(n, (ast.ListComp, ast.GeneratorExp)) and any(norm(g_.iter) == km for g_ in n.generators)]
+    if mean:
+        src = mean[0][1].get("dataall")
+        dd = fctx(kg)[1].single_def(src, fctx(kg)[1].node_of_expr(mean[0][0])) if src and src.isidentifier() else None
+        r2.check(dd is not None and norm(dd.value) == "self.data", "slot value = mean of the object's own data over the slot's own members", kg, mean[0][0],
+                 f"the slot average is taken over `{norm1(dd.value) if dd else src}`, not over self.data")
+    elif anycomp:
+        r2.violation(kg, anycomp[0], f"`{norm1(anycomp[0], 100)}`: the slot value is not the mean of the data over exactly the slot's members "
+                     f"(Σ_{{ik∈slot}} data[ik] / len(slot))")
+    else:
+        r2.expect(False, "slot average located", kg, kg.node, "K__Result.to_grid: the per-slot average was not found")
     ta = idx.function(TC, "TabulatorAll.__call__")
-    tt = norm(ta.node).replace(" ", "")
-    r2.check("kpoints=data_K.kpoints_all.copy()" in tt and "results={key:val(data_K)forkey,valinself.tabulators.items()}" in tt,
-             "a tabulation block stores the k-points it was evaluated at", ta, ta.node, "TabulatorAll no longer pairs results with data_K.kpoints_all", stmt="kpoints_all")
+    ctor = [c for c in ast.walk(ta.node) if isinstance(c, ast.Call) and call_name(c).endswith("TABresult")]
+    if len(ctor) != 1:
+        r2.expect(False, "TABresult constructor located", ta, ta.node, "TabulatorAll.__call__: TABresult(…) not found")
+    else:
+        dk = ta.params[1]
+        kp = kwarg(ctor[0], "kpoints", 0)
+        rs_ = kwarg(ctor[0], "results")
+        okk = kp is not None and norm(kp) in (f"{dk}.kpoints_all.copy()", f"{dk}.kpoints_all")
+        okr = isinstance(rs_, ast.DictComp) and bool(pmatch(rs_, f"{{K: V({dk}) for K, V in self.tabulators.items()}}", {"K", "V"}))
+        r2.check(okk and okr, "a tabulation block stores the k-points it was evaluated at, next to every tabulator's values for the same data_K", ta, ctor[0],
+                 f"TabulatorAll pairs results with `{norm1(kp) if kp is not None else None}` instead of {dk}.kpoints_all / does not evaluate every tabulator on {dk}")
 
     # ---------------------------------------------------------------- R30.3
     r3 = ctx.rule("R30.3", "component extraction")
     gc = idx.function(KB, "get_component")
     r3.instance(gc.short)
+    G = Frag(gc)
     xyz = None
+    xyzname = None
     for s in stmts(gc.node):
-        if isinstance(s, ast.Assign) and is_name(s.targets[0], "xyz") and isinstance(s.value, ast.Dict):
-            xyz = {k.value: v.value for k, v in zip(s.value.keys, s.value.values)}
+        if isinstance(s, ast.Assign) and isinstance(s.targets[0], ast.Name) and isinstance(s.value, ast.Dict) \
+                and all(isinstance(k, ast.Constant) for k in s.value.keys) and {k.value for k in s.value.keys} >= {"x", "y", "z"}:
+            xyz = {k.value: const_of(v) for k, v in zip(s.value.keys, s.value.values)}
+            xyzname = s.targets[0].id
+    if xyz is None:
+        r3.expect(False, "component table located", gc, gc.node, "get_component: the {'x':…, 'y':…, 'z':…} table was not found")
+        return
     r3.check(xyz == {"x": 0, "y": 1, "z": 2}, "x, y, z ↦ 0, 1, 2", gc, gc.node, f"component table is {xyz}", stmt="xyz")
-    tg_ = norm(gc.node).replace(" ", "")
-    r3.check("_data=data.transpose(dims[-ndim:]+dims[:-ndim])" in tg_ and "return_data[tuple([xyz[c]forcincomponent])]" in tg_,
-             "string components index the trailing axes in the order written", gc, gc.node, "multi-letter components no longer index the trailing axes in order", stmt="string comps")
-    r3.check("returnsum([_data[(i,)*ndim]foriinrange(3)])" in tg_, "trace = Σ_i T[i, i, …]", gc, gc.node, "`trace` is no longer the sum of the diagonal elements", stmt="trace")
-    r3.check("forkincomponent[-1::-1]:Xnk=Xnk[...,k]" in tg_.replace("\n", ""), "tuple components peel trailing axes from the last one", gc, gc.node,
-             "tuple components no longer index the trailing axes in order", stmt="tuple comps")
-    r3.check("returndata[...,xyz[component]]" in tg_ and "returnnp.linalg.norm(data,axis=-1)" in tg_, "vector components / norm act on the last axis", gc, gc.node,
-             "vector component / norm extraction changed", stmt="vector comps")
+    datap, ndimp, compp = gc.params[:3]
+    r3.check(G.all(f"_data = {datap}.transpose(dims[-{ndimp}:] + dims[:-{ndimp}])", f"return _data[tuple([{xyzname}[c] for c in {compp}])]"),
+             "string components index the trailing axes in the order written", gc, gc.node,
+             "multi-letter components no longer index the trailing (tensor) axes in the order written", stmt="string comps")
+    r3.check(G.has(f"return sum([_data[(i,) * {ndimp}] for i in range(3)])") or G.has(f"return sum(_data[(i,) * {ndimp}] for i in range(3))"),
+             "trace = Σ_i T[i, i, …] over i = 0, 1, 2", gc, gc.node, "`trace` is no longer the sum of the three diagonal elements", stmt="trace")
+    tl = G.find(f"for k in {compp}[-1::-1]:\n    Xnk = Xnk[..., k]") or G.find(f"for k in reversed({compp}):\n    Xnk = Xnk[..., k]")
+    r3.check(bool(tl), "tuple components peel trailing axes from the last one", gc, gc.node,
+             "tuple components no longer index the trailing axes in order (last component ↔ last axis first)", stmt="tuple comps")
+    r3.check(G.has(f"return {datap}[..., {xyzname}[{compp}]]") and G.has(f"return np.linalg.norm({datap}, axis=-1)"),
+             "vector components / norm act on the last axis", gc, gc.node, "vector component / norm extraction changed", stmt="vector comps")
     cl = idx.function(KB, "K__Result.get_component_list")
-    r3.check("itertools.product(*[('x', 'y', 'z')] * dim)" in norm(cl.node), "component list enumerates xyz^dim", cl, cl.node, "component list changed", stmt="component list")
+    C = Frag(cl)
+    r3.check(C.has("itertools.product(*[('x', 'y', 'z')] * dim)") or C.has("itertools.product('xyz', repeat=dim)") or C.has("itertools.product(('x', 'y', 'z'), repeat=dim)"),
+             "component list enumerates xyz^dim", cl, cl.node, "the component list is no longer the product {x,y,z}^dim", stmt="component list")
 
 
 from ..selftest import V  # noqa: E402
@@ -136,6 +273,19 @@ SELFTEST = [
       "data = np.array([sum(dataall[ik] for ik in km) / len(k_map) for km in k_map])", "fire", "R30.2"),
     V("y and z swapped", KB, "xyz = {\"x\": 0, \"y\": 1, \"z\": 2}", "xyz = {\"x\": 0, \"y\": 2, \"z\": 1}", "fire", "R30.3"),
     V("trace skips a diagonal element", KB, "return sum([_data[((i,) * ndim)] for i in range(3)])", "return sum([_data[((i,) * ndim)] for i in range(2)])", "fire", "R30.3"),
+    V("meshgrid with the default indexing", TAB, "indexing='ij')", "indexing='xy')", "fire", "R30.1"),
+    V("integer coordinates not folded", TAB, "        kpoints_int = kpoints_int % grid[None, :]\n", "", "fire", "R30.1"),
+    V("get_data reshapes in Fortran order", TAB, "return self.Enk.data[:, iband].reshape(shape)", "return self.Enk.data[:, iband].reshape(shape, order='F')", "fire", "R30.1"),
+    V("FermiSurfer flatten in Fortran order", TAB, "data[:, :, :, ib].flatten(order='C')", "data[:, :, :, ib].flatten(order='F')", "fire", "R30.1"),
+    V("k-point appended to the neighbouring slot", TAB, "k_map[ind_grid[ik]].append(ik)", "k_map[ind_grid[ik] - 1].append(ik)", "fire", "R30.1"),
+    V("off-grid points not skipped", TAB, "            if on_grid[ik]:\n                k_map[ind_grid[ik]].append(ik)\n            else:\n                warnings.warn(f\"k-point {ik}={self.kpoints[ik]} is not on the grid, skipping.\")",
+      "            k_map[ind_grid[ik]].append(ik)", "fire", "R30.2"),
+    V("tabulator stores the irreducible k-point only", TC, "kpoints=data_K.kpoints_all.copy(),", "kpoints=data_K.kpoints_all[:1].copy(),", "fire", "R30.2"),
+    V("neutral: locals renamed in to_grid", TAB, "k_map", "slots", "silent", replace_all=True),
+    V("neutral: locals renamed in to_grid (index arrays)", TAB, "ind_grid", "flat_index", "silent", replace_all=True),
+    V("neutral: kpoints_int renamed", TAB, "kpoints_int", "kint", "silent", replace_all=True),
+    V("neutral: flatten without explicit order (numpy default C)", TAB, "data[:, :, :, ib].flatten(order='C')", "data[:, :, :, ib].flatten()", "silent"),
+    V("neutral: slot mean with a list inside sum", KB, "sum(dataall[ik] for ik in km) / len(km)", "sum([dataall[ik] for ik in km]) / len(km)", "silent"),
     V("neutral: expanded slot index", TAB, "ind_grid = kpoints_int[:, 2] + grid[2] * (kpoints_int[:, 1] + grid[1] * kpoints_int[:, 0])",
       "ind_grid = kpoints_int[:, 0] * grid[1] * grid[2] + kpoints_int[:, 1] * grid[2] + kpoints_int[:, 2]", "silent"),
 ]
